@@ -295,6 +295,68 @@ impl<'a, 'b> GeneratorState<'a> {
             }
             f = self.generate_arithm(l, &Operation::Sub(false), r, pos, true)?;
         }
+        if !compute_subtraction
+            && matches!(
+                op,
+                Operation::Gt | Operation::Lte | Operation::Lt | Operation::Gte
+            )
+        {
+            // Ordering against 0: the sign is the top bit of the high byte (now in the
+            // accumulator, with N and Z set by its load), and only for a signed variable
+            let signed16 = match l {
+                ExprType::Absolute(v, _, _) | ExprType::AbsoluteX(v) | ExprType::AbsoluteY(v) => {
+                    self.compiler_state.get_variable(v).signed
+                }
+                _ => true,
+            };
+            let skip_label = format!(".ifstart{}", self.local_label_counter_if);
+            if matches!(op, Operation::Gt | Operation::Lte) {
+                self.local_label_counter_if += 1;
+            }
+            if let ExprType::A(_) = f {
+                self.acc_in_use = false;
+            }
+            let lbl = ExprType::Label(label.into());
+            let skip = ExprType::Label(skip_label.clone());
+            match op {
+                Operation::Lt => {
+                    if signed16 {
+                        self.asm(BMI, &lbl, pos, false)?;
+                    }
+                }
+                Operation::Gte => {
+                    if signed16 {
+                        self.asm(BPL, &lbl, pos, false)?;
+                    } else {
+                        self.asm(JMP, &lbl, pos, false)?;
+                    }
+                }
+                Operation::Gt => {
+                    // Positive: not negative, and one of the two bytes is not 0
+                    if signed16 {
+                        self.asm(BMI, &skip, pos, false)?;
+                    }
+                    self.asm(BNE, &lbl, pos, false)?;
+                    self.asm(LDA, &ExprType::Tmp(false), pos, false)?;
+                    self.asm(BNE, &lbl, pos, false)?;
+                }
+                _ => {
+                    // Negative, or both bytes are 0
+                    if signed16 {
+                        self.asm(BMI, &lbl, pos, false)?;
+                    }
+                    self.asm(BNE, &skip, pos, false)?;
+                    self.asm(LDA, &ExprType::Tmp(false), pos, false)?;
+                    self.asm(BEQ, &lbl, pos, false)?;
+                }
+            }
+            self.flags = FlagsState::Unknown;
+            self.tmp_in_use = false;
+            return match op {
+                Operation::Gt | Operation::Lte => self.label(&skip_label),
+                _ => Ok(()),
+            };
+        }
         // After an unsigned subtraction the carry tells whether a borrow occurred: it must be
         // looked at before the bytes of the difference are tested for zero
         let unsigned_sub =
